@@ -40,6 +40,14 @@ class Ctx:
         self._distinct: set = set()
         self.findings = load_findings()
         self.machinery_errors: list[str] = []
+        self._phase = ("start", time.time())
+        self.cov["phases_s"] = {}
+
+    def phase(self, name):
+        """wall-clock bookkeeping per phase (model checking / generation / driving / validation)"""
+        old, t = self._phase
+        self.cov["phases_s"][old] = round(self.cov["phases_s"].get(old, 0) + time.time() - t, 1)
+        self._phase = (name, time.time())
 
     @property
     def quick(self):
@@ -118,6 +126,7 @@ class Ctx:
         self.violations.append({"case": case, "failed": sorted(failed), "signature": sig})
 
     def finish(self, rule: str, explanation: str = "", exhaustive: bool | None = None) -> int:
+        self.phase("finish")
         os.makedirs(os.path.join(VERIF, "evidence"), exist_ok=True)
         os.makedirs(os.path.join(VERIF, "replays"), exist_ok=True)
         self.cov["distinct_nontrivial"] = len(self._distinct)
